@@ -594,6 +594,8 @@ impl AutosarModel {
                 let _ = self.root_element().remove_from_file(file);
                 // self.unmerge_file(&file.downgrade());
             }
+            // the removed file no longer belongs to the model; otherwise elements could still be added to it with add_to_file()
+            file.0.write().model = WeakAutosarModel(Weak::new());
         }
     }
 
